@@ -125,7 +125,7 @@ pub fn run(rep: &mut Report) {
         the trigger's answer with (size > N); after every append the directory is compared with the exact model; non-trivial = \
         at least one consultation; distinct = distinct history".to_owned();
     rep.assume("the size is observed at the Trigger boundary (a wrapper around the real SizeTrigger), i.e. exactly what the policy is shown");
-    let n = if rep.tier == "thorough" { 20_000 } else { 1_500 };
+    let n = if rep.tier == "thorough" { 30_000 } else { 5_000 };
     run_cases(rep, "history", n, history);
     rep.require(rep.counter("policy_consultations_observed") > 5_000, "fewer than 5000 policy consultations observed");
     rep.require(rep.counter("consultations_exactly_at_the_boundary") > 50, "the size == limit / limit+1 boundary was hardly reached");
